@@ -30,7 +30,8 @@ pub fn ev_strategy_with(w: [u32; 4], dt: BoxedStrategy<i64>, value: BoxedStrateg
         opts.push((w[1], Just(Ev::A).boxed()));
     }
     if w[2] > 0 {
-        opts.push((w[2], Just(Ev::E(1)).boxed()));
+        // error code 0 stands for Error::FromNone, the one error value rrtk itself creates
+        opts.push((w[2], prop_oneof![3 => Just(Ev::E(1)), 1 => Just(Ev::E(0))].boxed()));
     }
     if w[3] > 0 {
         opts.push((w[3], Just(Ev::E(2)).boxed()));
@@ -39,8 +40,18 @@ pub fn ev_strategy_with(w: [u32; 4], dt: BoxedStrategy<i64>, value: BoxedStrateg
 }
 /// strictly positive sampling interval, log-uniform 1 us .. 3 h
 pub fn dt_pos() -> BoxedStrategy<i64> {
-    gen::log_ns(1_000, 10_800_000_000_000)
+    prop_oneof![7 => gen::log_ns(1_000, 10_800_000_000_000), 3 => gen::special_ns(1_000, 10_800_000_000_000)].boxed()
 }
 pub fn t0_strategy() -> BoxedStrategy<i64> {
-    prop_oneof![Just(0i64), -1_000_000_000_000i64..1_000_000_000_000i64].boxed()
+    // zero, just below zero (histories that straddle t = 0), moderate, and far from zero in both directions
+    // (a history spans at most 64 x 3 h = 7e14 ns, so these cannot overflow)
+    prop_oneof![
+        3 => Just(0i64),
+        2 => -1_999i64..=0,
+        3 => -1_000_000_000_000i64..1_000_000_000_000i64,
+        1 => (0i64..2_000).prop_map(|d| i64::MIN + d),
+        1 => (0i64..2_000).prop_map(|d| i64::MAX - 700_000_000_000_000 - d),
+        1 => any::<i64>().prop_map(|t| t.clamp(i64::MIN, i64::MAX - 700_000_000_000_000)),
+    ]
+    .boxed()
 }
